@@ -20,3 +20,28 @@ Theorem C19_sync_makes_no_callback :
   forall st id out, rs_ev (fst (fst (fst (sync_state st id out)))) = rs_ev st.
 Proof. exact sync_no_callbacks. Qed.
 Print Assumptions C19_sync_makes_no_callback.
+
+(* no table is opened before the minimum initial number of players is waiting: with no table open and
+   fewer than the minimum in the queue, draining the queue does nothing *)
+From PF Require Import ProofsReg.
+Theorem C19_no_table_below_the_minimum :
+  forall st, r_tc (rs_reg st) = 0 -> zn (length (r_queue (rs_reg st))) < r_min (rs_reg st) -> drain st = st.
+Proof. exact no_table_below_the_minimum. Qed.
+Print Assumptions C19_no_table_below_the_minimum.
+
+(* every table opened by the initial allocation (no table open yet, every registered player waiting) gets at
+   least the minimum initial number of players *)
+Theorem C19_initial_tables_get_the_minimum :
+  forall st,
+    r_tc (rs_reg st) = 0 -> r_pc (rs_reg st) = zn (length (r_queue (rs_reg st))) ->
+    0 < r_max (rs_reg st) -> 0 < r_min (rs_reg st) ->
+    forall e, In e (rs_ev (allocate_tables st)) ->
+      In e (rs_ev st) \/ exists id ps, e = EvRequest id ps /\ r_min (rs_reg st) <= zn (length ps).
+Proof. exact initial_tables_get_the_minimum. Qed.
+Print Assumptions C19_initial_tables_get_the_minimum.
+
+(* the full capacity clause does not hold of the code: the known finding F12a, on the model *)
+Example C19_F12a_witness :
+  let s := sys_run (sys_init 9 6) [SRegister [] (seqZ_from 1 6); SStatus [] 1; SRegister [] (seqZ_from 7 37)] in
+  existsb (fun m => 9 <? zn (length (snd m))) (s_tabs s) = true.
+Proof. vm_compute. reflexivity. Qed.
